@@ -10,6 +10,8 @@ virtual-time loop of vlib/c15_env.py.  Nothing here patches EasyNetwork: the onl
                    create_tcp_connection() -> the next MemTransport; the objects it is given (or that it creates with
                    .transport() / .listen()) are adopted: they report this backend and carry the INET attributes
   run_tcp_server_session(case)   same case / lines / aux as c15_run.run_session, through AsyncTCPNetworkServer
+  run_tcp_server_conn_session(case)   the same for any connection kind (`case["conn"]`, c15_run.Connection: "stapled" =
+                   the library's AsyncStapledStreamTransport over two in-memory half transports)
   make_tcp_client(proto, ...)    (AsyncTCPNetworkClient, its MemTransport, the MemBackend)
 
 The server installs its own disconnect_error_filter (ConnectionError -> disconnection), so case["filter"] is ignored.
@@ -199,6 +201,59 @@ def run_tcp_server_session(case: dict) -> tuple[list[str], dict]:
     aux["gens_started"] = script.gens_started
     aux["recv_log"] = tr.recv_log
     aux["recv_while_closed"] = tr.recv_while_closed
+    aux["read_marks"] = list(log.marks)
+    aux["listener_closed"] = listener.closing
+    aux["listen_calls"] = be.listen_calls
+    return lines, aux
+
+
+def run_tcp_server_conn_session(case: dict) -> tuple[list[str], dict]:
+    """run_tcp_server_session for any connection kind of c15_run.Connection (`case["conn"]`: "single" | "stapled"): the
+    accepted connection is whatever Connection builds, its in-memory (half) transports adopted by the MemBackend"""
+    _quiet()
+    log = run.Log()
+    script = run.Script(case, log)
+    be = MemBackend()
+    peer = (HOST, ACCEPTED_PORT0)
+    conn = run.Connection(case, be=be, adopt=lambda obj, which: be._adopt(obj, inet_extra((HOST, LISTEN_PORT), peer)))
+    log.probe = lambda: conn.reader.nread
+    listener = env.MemListener([conn.transport], be=be)
+    be.listener = be._adopt(listener, inet_extra((HOST, LISTEN_PORT)))
+    proto = sd.make_protocol(case["spec"], case["path"], bool(case.get("conv")))
+    aux: dict[str, Any] = {"chunks": conn.chunks, "incoming": conn.incoming, "t_end": conn.t_end}
+
+    async def main() -> None:
+        server = AsyncTCPNetworkServer(
+            case.get("host", HOST), 0, proto, run.ScriptedHandler(script), backend=be,
+            max_recv_size=case.get("max_recv", 16384), log_client_connection=False,
+        )
+        assert server.backend() is be and conn.transport.backend() is be and listener.backend() is be
+        t = asyncio.ensure_future(server.serve_forever())
+        try:
+            while listener.all_done is None and not t.done():
+                await asyncio.sleep(0)
+            if listener.all_done is not None:
+                await listener.all_done.wait()
+                aux["addresses"] = [tuple(a) for a in server.get_addresses()]
+            log("task-done")
+            await server.shutdown()
+            await server.server_close()
+        finally:
+            t.cancel()
+            with contextlib.suppress(asyncio.CancelledError):
+                await t
+
+    out, loop = env.run(main)
+    lines = list(log.lines)
+    if out[0] == "exc":
+        lines.append(f"main-exc {type(out[1]).__name__}: {out[1]}")
+    for kind, e in listener.task_results:
+        lines.append("task " + (kind if kind != "exc" else "exc:" + run.exc_kind(e)))
+    lines.extend(conn.final_lines())
+    lines.append(f"nresp {script.nresp}")
+    conn.fill_aux(aux)
+    aux["gen_ends"] = script.gen_ends
+    aux["gens_started"] = script.gens_started
     aux["read_marks"] = list(log.marks)
     aux["listener_closed"] = listener.closing
     aux["listen_calls"] = be.listen_calls
